@@ -265,8 +265,9 @@ class Padding(WidgetDecoration[WrappedWidget], typing.Generic[WrappedWidget]):
                     stacklevel=3,
                 )
 
+            # render(()) gives the widget exactly the given width: min_width applies to relative / pack widths only
             return (
-                max(self._width_amount, self.min_width or 1) + expand,
+                self._width_amount + expand,
                 self.original_widget.rows((self._width_amount,), focus),
             )
 
